@@ -38,9 +38,9 @@ def cases(rng, tier, X):
             if hiccup:
                 ops.append('set 0 getfail=0 mac=%s' % F.OWN)
             if rng.random() < 0.05:
-                ops.append('glob icon=%s' % rng.choice(['gen:300:7', 'gen:900:8', 'none']))
+                ops.append('glob icon=%s' % rng.choice(['gen:300:7', 'gen:900:8', 'none', 'none failsize=%d' % rng.choice([40, 3000])]))
         if rng.random() < 0.6:
-            ops.append('glob icon=%s' % rng.choice(['gen:100:9', 'gen:1200:4', 'none', '-']))
+            ops.append('glob icon=%s failsize=0' % rng.choice(['gen:100:9', 'gen:1200:4', 'none', '-']))
         if rng.random() < 0.3:
             ops.append('glob host=%s' % rng.choice(['6161', '-', '62' * 33]))
         if rng.random() < 0.3:
